@@ -45,7 +45,7 @@ Ltac side :=
   try reflexivity;
   try (split; discriminate);
   try (intros; cbn; reflexivity);
-  try (intros; cbn; unfold upd; eqb_cases; congruence);
+  try (intros; cbn; unfold upd; eqb_cases; (reflexivity || congruence));
   try (cbn; unfold upd; rewrite ?Nat.eqb_refl; simpl; lia).
 
 Lemma invA_impl : forall P c x c', inv P c -> invA P c -> step_impl P c x = Some c' -> invA P c'.
@@ -64,14 +64,18 @@ Proof.
     + assert (Hq : ppc c c0 = PQueued) by (apply (a_q1 _ _ A _ _ _ En); rewrite Eph; simpl; lia).
       assert (Hl : length (compl c c0) = 0) by (apply (compl_len0 P); auto; congruence).
       destruct (ierr c x); inv_some.
-      * eapply (invA_process P c _ x c0 k PDone); eauto; side.
+      * eapply (invA_process P c _ x c0 k PDone (ADraining (S k))); eauto; side.
       * set (c1 := ev (EvProc x c0) (set_aq_ph (upd (aq_ph c) x (ADraining (S k))) c)).
         assert (Hb : pbasis c c0 <= k) by (eapply (a_q8 _ _ A); eauto).
         assert (Hk : k <= length (aq_q c1 x)).
         { cbn. apply Nat.lt_le_incl. apply nth_error_Some. rewrite En. discriminate. }
         destruct (deliver_cases x c0 (pbasis c c0) k true c1 Hb Hk) as [(d & E)|(o & E)]; rewrite E.
-        -- eapply (invA_process P c _ x c0 k PDelivered); eauto; side.
-        -- eapply (invA_process P c _ x c0 k PEmbRet); eauto; side.
+        -- match goal with |- context [if ?b then _ else _] => destruct b end.
+           ++ eapply (invA_process P c _ x c0 k PDelivered (ADrainWait (S k))); eauto; side.
+           ++ eapply (invA_process P c _ x c0 k PDelivered (ADraining (S k))); eauto; side.
+        -- match goal with |- context [if ?b then _ else _] => destruct b end.
+           ++ eapply (invA_process P c _ x c0 k PEmbRet (ADrainWait (S k))); eauto; side.
+           ++ eapply (invA_process P c _ x c0 k PEmbRet (ADraining (S k))); eauto; side.
     + inv_some. pose proof (a_q1b _ _ A x) as Q. rewrite Eph in Q. simpl in Q.
       apply nth_error_None in En.
       eapply (invA_phase P c _ x IReturn ADrained); eauto; side.
@@ -91,6 +95,7 @@ Proof.
     cbn in H. destruct (aq_ph c a) eqn:Eph; [destruct (Nat.eqb _ _)|..]; inv_some.
     + eapply (invA_enter P c _ p a b PWaitDrain); eauto; side.
     + eapply (invA_enqueue P c _ p a b); eauto; side.
+    + eapply (invA_enter P c _ p a b PWaitReady); eauto; side.
     + eapply (invA_enter P c _ p a b PWaitReady); eauto; side.
     + eapply (invA_enter P c _ p a b PWaitReady); eauto; side.
   - (* PWaitDrain *)
@@ -152,4 +157,6 @@ Proof.
   - eapply invA_emb; eauto.
   - eapply invA_frame; [eapply frame_cancel; eauto|auto].
   - eapply invA_frame; [eapply frame_shutdown; eauto|auto].
+  - unfold step_drain_ack in H. destruct (aq_ph c a) eqn:Eph; inv_some.
+    eapply (invA_rephase P c _ a (ADraining k)); eauto; side; rewrite Eph; reflexivity.
 Qed.
